@@ -25,6 +25,15 @@ def quiet(f, *a, **k):
         return f(*a, **k)
 
 
+def _takes_positional_noise_var(obj):
+    import inspect
+    try:
+        ps = list(inspect.signature(obj.forward).parameters.values())[1:]
+    except (TypeError, ValueError):
+        return False
+    return bool(ps) and (ps[0].kind == inspect.Parameter.VAR_POSITIONAL or ps[0].name == "noise_var")
+
+
 def pairings(quick):
     from kaira.models.fec import decoders as D
     from kaira.models.fec import encoders as E
@@ -161,13 +170,16 @@ def run(run):
                         for o in (mod, dem, mod2):
                             if hasattr(o, "reset_state"):
                                 o.reset_state()
-                        # the same frame through different call forms: float / integer message tensors, noise variance as float, fraction, 0-dim tensor
+                        # the same frame through different call forms: float / integer message tensors, noise variance as float, fraction, 0-dim tensor, by keyword or position
                         var = fi % 4
                         Xc = X.long() if var == 1 else (X.double() if var == 3 and iface == "hard" else X)
                         nvc = (1.0, 0.25, torch.tensor(0.5), 4)[var]
-                        ev["call"] = "%s/%s" % (str(Xc.dtype).replace("torch.", ""), "-" if iface == "hard" else repr(nvc))
+                        # the noise variance as a positional extra instead of a keyword - for links all of whose stages take a second positional
+                        # argument as `noise_var` or as *args (a stage whose second parameter means something else is outside this call form)
+                        positional = (var == 2 or (var == 0 and fi >= 4))
+                        ev["call"] = "%s/%s%s" % (str(Xc.dtype).replace("torch.", ""), "-" if iface == "hard" else repr(nvc), " positional" if positional and iface != "hard" else "")
                         try:
-                            out = model(Xc) if iface == "hard" else model(Xc, noise_var=nvc)
+                            out = model(Xc) if iface == "hard" else (model(Xc, nvc) if positional else model(Xc, noise_var=nvc))
                         except Exception:
                             if Xc.dtype == X.dtype:
                                 raise
@@ -178,8 +190,8 @@ def run(run):
                                 if hasattr(o, "reset_state"):
                                     o.reset_state()
                             out = model(X) if iface == "hard" else model(X, noise_var=nvc)
-                        if isinstance(out, tuple):
-                            out = out[0]
+                        if not torch.is_tensor(out):
+                            raise TypeError("the link returned %s, not the message tensor" % type(out).__name__)
                         encw = cap["enc"].reshape(blocks, n)
                         ev["cws"] = [fec.limbs(fec.to_int(encw[j]) ^ zero_cw, n) for j in range(blocks)]
                         ev["nsym"] = int(cap["mod"].shape[-1])
@@ -208,8 +220,8 @@ def run(run):
                             o.reset_state()
                     Xb = torch.stack([torch.cat([fec.from_int(m, k) for m in fr]) for fr in rows_fr])
                     ob = model(Xb) if iface == "hard" else model(Xb, noise_var=1.0)
-                    if isinstance(ob, tuple):
-                        ob = ob[0]
+
+
                     ob = ob.reshape(len(rows_fr), blocks, k)
                     encb = cap["enc"].reshape(len(rows_fr), blocks, n)
                     demb = cap["dem"].reshape(len(rows_fr), blocks, n)
@@ -230,6 +242,7 @@ def run(run):
                 h.remove()
     run.log("%d events" % len(evs))
     mism = tv.validate(run, "Trace_Link", evs, name="TV C09", timeout=3000, heap="12g")
+    run.extra["links_called_with_positional_noise_variance"] = sum(1 for e in evs if "positional" in str(e.get("call", "")))
     seen = set()
     for (t_, line, clause) in mism:
         cfg, e = meta[line - 1]
